@@ -50,4 +50,6 @@ unsigned zv_map_hash(unsigned sizeLog, unsigned key);
 unsigned long long zv_fnv(const void* p, size_t n);
 /* round 3: offcodeMax chosen by the real ZDICT_analyzeEntropy for a dictionary of dictSize bytes (-1 = error returned) */
 int zv_offcode_max(unsigned long long dictSize);
+/* round 3: an operation sequence on a real COVER_map_t (see c18_tu_cover.c) */
+int zv_map_ops(unsigned size, const unsigned* keys, const int* ops, int n, unsigned* vals, unsigned* table, unsigned tableCap);
 #endif
